@@ -24,6 +24,8 @@ C05 = [
      "x*c, x+c, x-c, x/c with c only approximately the literal (pattern constants match with rel_tol 1e-5 / abs_tol 1e-8), e.g. Add(x, 1e-9) -> Identity(x)"),
     ("minmax_clip_bounds_size1_not_rank0", ["min_max_rule", "max_min_rule"],
      "Min/Max -> Clip accepts single-element constants of rank >= 1 ([1], [1,1]); the broadcast they cause on the output shape is lost (shape (1,3) -> (3,))"),
+    ("minmax_to_clip_before_opset11", ["min_max_rule", "max_min_rule"],
+     "Min(Max(x, lo), hi) / Max(Min(x, hi), lo) -> Clip(x, lo, hi) with the bounds as INPUTS in models whose opset is < 11, where Clip only has min/max attributes (invalid model)"),
     ("clip_chain_disjoint_or_inverted", ["successive_clip_rule"],
      "Clip(Clip(x, lo1, hi1), lo2, hi2) -> Clip(x, max(lo), min(hi)) is wrong for disjoint or inverted intervals (Clip(Clip(x,'',-2),1,3) = 1, fused = -2)"),
     ("clip_opset_lt11_attribute_form", ["successive_clip_rule", "successive_relu_clip_rule", "successive_clip_relu_rule"],
